@@ -1,5 +1,6 @@
 import ShVerif.Proofs.C05Main
 import ShVerif.Proofs.C05Minify
+import ShVerif.Proofs.C05Static
 /-
   C05 — Formatting keeps every comment: the property theorems about the comment-skeleton model
   of `syntax/printer.go` (`ShVerif/Model/C05.lean`).
@@ -155,6 +156,46 @@ theorem pinned_time_inner :
     default options, and a comment is written. -/
 example : WFComments exPipe = true ∧ (printFile { singleLine := true } exPipe).lossD = 0 ∧
     SourceOrdered exPipe = true ∧ emitted { singleLine := true } exPipe = [comC] := by decide
+
+/-! ## `lossD = 0` from a syntactic condition -/
+
+/-- On a tree without reordering sites (`NoReorderSites`: no `BinaryCmd` whose right operand
+    carries comments both in `Y.Comments` and inside `Y`; no backquoted substitution consisting of
+    one comment) the printer never takes a state-dependent reordering branch, whatever the
+    options. -/
+theorem lossD_zero_of_noReorderSites (o : Opts) (f : File) (hn : NoReorderSites f = true) :
+    (printFile o f).lossD = 0 := by
+  unfold printFile
+  have h : LStep (initSt o) (flushComments o (flushHeredocs o (newline o Pos.none
+      (listPost o f.stmts.length (sepOf f.stmts (initSt o)) f.last (prStmtLoop o false f.stmts (initSt o)))))) :=
+    ((((lstep_loop o false f.stmts (initSt o) hn).andThen (listPost_lstep o _ _ f.last _)).andThen
+      (newline_lstep o Pos.none _)).andThen (flushHeredocs_keeps o _).lstep).andThen (flushComments_lstep o _)
+  simpa [LStep, initSt] using h
+
+/-- **Printer order = field order**, all hypotheses syntactic: Minify off, `WFComments`,
+    `NoReorderSites`. -/
+theorem emitted_eq_allComments_static (o : Opts) (f : File) (hm : o.minify = false)
+    (hw : WFComments f = true) (hn : NoReorderSites f = true) : emitted o f = allComments f :=
+  emitted_eq_allComments o f hm hw (lossD_zero_of_noReorderSites o f hn)
+
+/-- **Comments are conserved** (multiset and order) with syntactic hypotheses only: Minify off,
+    `WFComments` (parser guarantee, checked per run), `NoReorderSites` (regions of the open
+    findings C05-singleline-ycomments-after-nested, C05-binary-y-for-header-comments-after-body,
+    C05-singleline-inline-backquote-comment-overtakes-pending) and `SourceOrdered` (regions of
+    C05-for-header-comments-queued-early, C05-funcdecl-body-trailing-comment-printed-first,
+    C05-redirect-only-stmt-trailing-comment-printed-first,
+    C05-trailing-comment-before-heredoc-body-printed-first). -/
+theorem comments_conserved_static (o : Opts) (f : File) (hm : o.minify = false)
+    (hw : WFComments f = true) (hn : NoReorderSites f = true) (ho : SourceOrdered f = true) :
+    emitted o f = sourceOrder f :=
+  comments_conserved_partial o f hm hw (lossD_zero_of_noReorderSites o f hn) ho
+
+/-- Non-vacuity and sharpness: `a | # c⏎b` satisfies all three syntactic hypotheses;
+    `a | # c1⏎$(b # c2⏎)` fails exactly `NoReorderSites`; the `for` witness fails exactly
+    `SourceOrdered`. -/
+example : (WFComments exPipe && NoReorderSites exPipe && SourceOrdered exPipe) = true ∧
+    (WFComments exPipeNested && SourceOrdered exPipeNested) = true ∧ NoReorderSites exPipeNested = false ∧
+    (WFComments exFor && NoReorderSites exFor) = true ∧ SourceOrdered exFor = false := by decide
 
 /-! ## Minify -/
 
